@@ -1,0 +1,25 @@
+//go:build verif && verif_plugin
+
+package freeze
+
+import (
+	"io"
+
+	"k8s.io/cli-runtime/pkg/genericclioptions"
+	"sigs.k8s.io/controller-runtime/pkg/client"
+)
+
+// RunForVerif runs the body of `kubectl-eds freeze-rollout|unfreeze-rollout` with an injected client.
+func RunForVerif(c client.Client, ns, name string, wantFrozen bool, out io.Writer) error {
+	want := unfrozen
+	if wantFrozen {
+		want = frozen
+	}
+	o := newfreezeOptions(genericclioptions.IOStreams{Out: out, ErrOut: out}, want)
+	o.client, o.userNamespace, o.userExtendedDaemonSetName, o.args = c, ns, name, []string{name}
+	if err := o.validate(); err != nil {
+		return err
+	}
+
+	return o.run()
+}
